@@ -124,7 +124,7 @@ reg("C17", ["c17_endpoints.c"], level="fault_enumeration",
     rule="'exact': every driver behaviour script of length <= 5 (quick) / <= 8 (thorough) over {1, 0, EINTR, EAGAIN, "
          "hard error} for octet-style and {1, 2, k=3, all asked, 0, EINTR, EAGAIN, hard error} for chunk-style "
          "drivers (after the script the driver moves everything asked), for N = 1..6, through source_get_chunk, "
-         "sink_put_chunk and both at-most variants; 'invalid': N = 0 and N > SSIZE_MAX; 'patience': 70000 idle answers (0/EINTR/EAGAIN) in a row, and 200000 octets in pieces of 1-3 with an idle answer before each, through counting drivers; 'codes': every errno value 1..140 except EINTR/EAGAIN as a driver's hard error (first call and after one octet, exact and at-most calls, both styles); 'nothing': at-most transfers of zero octets and the aux functions with a "
+         "sink_put_chunk and both at-most variants; 'invalid': N = 0 and N > SSIZE_MAX; 'patience': 70000 idle answers (0/EINTR/EAGAIN) in a row, and 200000 octets in pieces of 1-3 with an idle answer before each, through counting drivers; the aux functions that rewind also get buffers with consumed octets in front; 'codes': every errno value 1..140 except EINTR/EAGAIN as a driver's hard error (first call and after one octet, exact and at-most calls, both styles); 'nothing': at-most transfers of zero octets and the aux functions with a "
          "full auxiliary buffer (nothing may move, nothing may be written); 'plumb': every pair of "
          "source and sink scripts up to length 3 (thorough 4) over {1, 2, all, hard error} x N = 1..6 x stream "
          "longer/shorter than N x 4 driver-style combinations x sink error EIO/ENOMEM, through sts_cbc, sts_n_cbc, "
@@ -257,7 +257,9 @@ reg("C02", ["c02_blockwrite.c"],
          "constraint-satisfying content: every address from two words below the lowest base to two above the highest "
          "end x every length 0..span+3 (lengths > 9 sub-sampled in quick) x word patterns {identity, acceptable value "
          "per overlapped register, bound +-1 per overlapped register, refused float encodings, random, all-ones, "
-         "all-zeros}, issued in sequence so that content evolves. The caller buffer is an exact-size poisoned-arena "
+         "all-zeros}, issued in sequence so that content evolves; 'noread': the same on a table with a write-only device area (write "
+         "callback, no read callback) holding registers - a block that leaves part of such a register as it is cannot "
+         "be validated and must be refused, with whatever code. The caller buffer is an exact-size poisoned-arena "
          "object, as are area storage, area[] and entry[] incl. sentinels. Per table also requests much longer than "
          "the table (255..0x100000 words, heap buffer) and requests that cannot be backed by memory (0x100001.."
          "0xffffffff words, address + length reaching or passing 2^32; exact-size 256-word arena buffer), which must "
@@ -268,7 +270,7 @@ reg("C03", ["c03_blockread.c"],
     rule="units = " + RT_FAMILY + " (400 tables quick, 6000 thorough). Per table (storage filled out of band with "
          "distinct words): the uninitialised table is probed first; then every address from two words below the "
          "lowest base to two above the highest end x every length 0..span+3: one block read into an exact-size "
-         "poisoned-arena buffer, one iteration with an always-continue callback and, for each of the first four "
+         "poisoned-arena buffer (windows without holes also through register_block_read_unsafe), one iteration with an always-continue callback and, for each of the first four "
          "callback positions k, iterations stopped at call k by a positive and by a negative result; finally the "
          "whole-table idioms foreach(0, ADDRESS_MAX). A signature is a table; evaluations counts reads and "
          "iterations judged.",
